@@ -34,11 +34,11 @@ CHECKS = {
 
 # workloads added after the third round of seeded changes (DESIGN.md 14.6)
 ADD = {
- "C01": "Conditional setters that store nothing are also judged on the identity of the stored instance; same-waker mode; clone_from between observables; a director scenario runs subscribe + first poll on one thread against write accesses that do not notify on another (every order at the pause points).",
+ "C01": "Conditional setters that store nothing are also judged on the identity of the stored instance; same-waker mode; clone_from between observables; a director scenario runs subscribe + first poll on one thread against write accesses that do not notify on another (every order at the pause points); guard scripts 3 and 4 of C16 run here as well.",
  "C02": "Poll storms (dozens of distinct wakers pending between two updates), one-waker-per-subscriber mode, and a many-waiters thread round (up to 120 wakers pending at once against 1-3 writer threads).",
- "C04": "A many-waiters round (poller threads multiplexing 8-40 subscribers each) adds the lost-wakeup and final-value oracle for more than 32/64 simultaneous waiters.",
- "C05": "Backlog histories (capacities 64-1024, rare polls: one batched poll collects dozens of messages); transactions of 33-140 operations; a Reset for a subscriber that never fell behind is a C05 fault too.",
- "C06": "Backlog histories around capacities 31-256 with hundreds of undelivered messages.",
+ "C04": "Director enumerations that do not finish within their budget are followed by sampled schedules. A many-waiters round (poller threads multiplexing 8-40 subscribers each) adds the lost-wakeup and final-value oracle for more than 32/64 simultaneous waiters.",
+ "C05": "Subscribers turned into a stream only at their first poll, through each of the four constructors (random and enumerated). Backlog histories (capacities 64-1024, rare polls: one batched poll collects dozens of messages); transactions of 33-140 operations; a Reset for a subscriber that never fell behind is a C05 fault too.",
+ "C06": "Late conversion of lagging subscribers (the values handed out must be a state the vector had; a lagging subscriber must get a Reset). Backlog histories around capacities 31-256 with hundreds of undelivered messages.",
  "C07": "One transaction in forty records 33-140 operations; large vectors (a traversal inside a transaction records one diff per element).",
  "C08": "Eight subscriber situations since round three (lagged with an empty final state, directly and via a transaction).",
  "C09": "Backlog generators (capacities 33-256, 80-300 operations, polls at 2%) and far runs (33-90 updates at one end of a long vector, then one at the other); a stage that stops before its input was Pending is judged against the vector's contents at that moment.",
@@ -46,10 +46,10 @@ ADD = {
  "C12": "Backlog and far-run generators as in C09.", "C13": "Backlog generator as in C09 (batched).",
  "C14": "Long histories, backlog and far-run generators (dozens of ignored/filtered updates consumed by one poll).",
  "C15": "Backlog and far-run generators as in C09.",
- "C16": "One-waker-per-subscriber mode (will_wake paths), poll storms.",
+ "C16": "One-waker-per-subscriber mode (will_wake paths), poll storms; guard scripts with two queued setters (results must match one sequential order) and with next_now/next_ref_now started on a contended lock.",
  "C18": "Targets and payloads with an internal structure that comes from a history (carved out of larger vectors, shifted fronts, several leaves although short).",
- "C19": "Clone::clone_from between handles of two observables (also over the last owner); clone/drop/downgrade/upgrade of handles while a write or read guard is alive.",
- "C03": "Clone::clone_from overwriting the last owner must end every subscriber stream like a drop does.",
+ "C19": "Clone::clone_from between handles of two observables (also over the last owner); clone/drop/downgrade/upgrade of handles while a write or read guard is alive; Subscriber::clone_from across observables.",
+ "C03": "Owners dropped while their thread unwinds from a panic. Clone::clone_from overwriting the last owner must end every subscriber stream like a drop does.",
  "C20": "Large-vector variants of the vector and adapter accounting runs.",
 }
 
